@@ -58,6 +58,26 @@ class P:
         other = []
         for s in sample:
             other.append(G.pcase(s, aliases=rnd.choice(ALIASES + [None]), kind=rnd.choice(["b", "r", "R", "B", "c"])))
+        # alias values that end inside a construct (substitution, expansion, quote, escape, here-document operator), the alias
+        # name being a prefix of its own value, alone and through a chain; every string of <= 3 symbols (4 in the thorough tier) over
+        # command words, the headers of for / case, separators and the alias names
+        syms = ["for", "case", "in", "do", "done", "esac", "if", "then", "fi", "a", "E", "F", ";", "\n", "x", "(", ")", "{", "}", "|", "&&", "!", "1"]
+        opens = ["`", "$(", "${x:-", "$((", '"', "'", "\\", "<<D", "$(a `", '"$(', "((", "(", "{", "if", "a |", "a &&", "$"]
+        tables = []
+        for o in opens:
+            tables += [{"E": "E" + o}, {"E": "a " + o, "F": "E"}, {"E": "F", "F": "F" + o}, {"E": "F ", "F": o + " "}]
+        open_cases = []
+        for n in (1, 2, 3) if tier == "quick" else (1, 2, 3, 4):
+            for t in __import__("itertools").product(syms, repeat=n):
+                if "E" not in t and "F" not in t:
+                    continue
+                src = " ".join(t)
+                if tier == "quick" and n == 3:
+                    open_cases += [G.pcase(src, aliases=tb) for tb in rnd.sample(tables, 6)]
+                elif n == 4:
+                    open_cases += [G.pcase(src, aliases=tb) for tb in rnd.sample(tables, 2)]
+                else:
+                    open_cases += [G.pcase(src, aliases=tb) for tb in tables]
         env0 = dict(os.environ, GODEBUG="panicnil=0")
         env1 = dict(os.environ, GODEBUG="panicnil=1")
         nt = lambda c: len(unhx(c.split("\t")[0])) >= 2
@@ -68,6 +88,8 @@ class P:
              "distribution": {"symbols": 35, "len": 3, "cases": len(exw)}},
             {"name": "programs-mutants-panicnil0", "harness": "parse", "driver": None, "cases": gen, "env": env0, "impl_ok": impl_ok, "nontrivial": nt,
              "distribution": {"programs": len(progs), "mutants": len(muts), "truncations": len(cut)}},
+            {"name": "alias-values-ending-inside-constructs", "harness": "parse", "driver": None, "cases": open_cases, "env": env0, "impl_ok": impl_ok, "nontrivial": nt,
+             "distribution": {"cases": len(open_cases), "tables": len(tables), "symbols": len(syms)}},
             {"name": "kinds-aliases-panicnil1", "harness": "parse", "driver": None, "cases": other, "env": env1, "impl_ok": impl_ok, "nontrivial": nt,
              "distribution": {"cases": len(other)}},
             {"name": "kinds-aliases-panicnil0", "harness": "parse", "driver": None, "cases": other[: len(other) // 2], "env": env0, "impl_ok": impl_ok, "nontrivial": nt,
